@@ -16,10 +16,11 @@ from fractions import Fraction
 from .. import core
 from ..core import q, lst, natl, boolc, opt, pair
 from .. import pb
+from . import c12_lp as LP
 
 ID = "C12"
 ORACLE = "Oracle.C12"
-PROPS = "Props/C12.v"
+PROPS = ["Props/C12.v", "Props/C12relax.v"]
 LEVEL = "proof"
 SHARD = 60
 MAX_DISCARD = 0.03
@@ -32,37 +33,58 @@ CODES = {
     5: ("oracle", "priceable reports success although no price system exists (Farkas certificates accepted by the verified check_farkas)"),
     6: ("oracle", "priceable returned an infeasible allocation or one different from the allocation it was given"),
     7: ("model", "harness certificate rejected by the verified checker (exact LP of the harness is at fault)"),
-    8: ("oracle", "the price system returned by priceable does not pass validate_price_system"),
-    9: ("oracle", "the price system returned by priceable is not a price system within the validator's tolerance (check_ps_eps)"),
+    8: ("oracle", "the price system returned by priceable does not pass validate_price_system (and no compared pair sits across a rounding boundary within 1e-9)"),
+    9: ("oracle", "the price system returned by priceable breaks a condition of the definition by more than 1e-6 (check_ps_eps_g)"),
     10: ("oracle", "priceable (plain, exhaustive=False) fails on an outcome of the Method of Equal Shares"),
     11: ("model", "the rows of the mip model built by priceable() differ from Model.ps_constraints on an assignment"),
+    12: ("oracle", "priceable(stable=True, relaxation=R) fails although a relaxed price system exists (accepted by the verified check_witness_g)"),
+    13: ("oracle", "priceable(stable=True, relaxation=R) succeeds although no relaxed price system exists (Farkas certificates accepted by the verified check_farkas)"),
+    14: ("oracle", "the beta reported by priceable(..., relaxation=R) is not minimal: it differs from the certified minimum of the objective by more than 1e-6"),
+    15: ("model", "priceable(..., relaxation=R) succeeds although the harness found the rows of the model infeasible"),
+    16: ("oracle", "the parameters returned for a relaxation are outside the documented range of its class"),
     core.RAISED: ("oracle", "the call raised / the interpreter died outside the solver"),
 }
 RULE = ("approval elections with 1..4 voters, 1..4 projects, integer costs 1..4 (plus a boundary stream with one "
         "cost > 10 x budget), integer budgets from 1 to the total cost, ballots incl. empty/full/duplicates; "
-        "candidate allocation = a subset (all subsets in the thorough tier), an Equal Shares outcome, an "
-        "infeasible subset, or searched; stable/plain x exhaustive on/off; validator queries = exact LP / Equal "
-        "Shares / equal-split price systems and perturbations of every condition by 0.1..1 and by sub-tolerance "
-        "amounts; non-trivial = distinct (election, call) whose answer needed the LP (not rejected on cost alone)")
+        "candidate allocation = a feasible (exhaustive) subset, a random subset (all subsets in the thorough tier), an "
+        "Equal Shares outcome, an infeasible subset, or searched; two thirds of the cases: relaxation=None, stable/plain "
+        "x exhaustive on/off; one third: stable=True with relaxation = MinMul / MinAdd / MinAddVector / "
+        "MinAddVectorPositive / MinAddOffset (evenly), exhaustive on/off; validator queries = exact LP / Equal Shares / "
+        "equal-split price systems (relaxed calls: the exact optimum with exactly set beta) and perturbations of every "
+        "condition and of beta by 0.1..1 and by sub-tolerance amounts; non-trivial = distinct (election, call) whose "
+        "answer needed the LP (not rejected on cost alone)")
 ASSUMPTIONS = [
-    "hand-written Gallina model of priceability.py / utils.round_cmp tied to the code by differential execution only",
+    "hand-written Gallina model of priceability.py / priceability_relaxation.py / utils.round_cmp tied to the code by "
+    "differential execution only",
     "gmpy2 mpq arithmetic and round(mpq, 2) = exact Q and round-half-even on Q",
     "CBC: every answer re-validated against the model rows (tolerance 1e-6 on continuous variables); invalid answers "
-    "and solver crashes are discarded and counted",
+    "and solver crashes are discarded and counted; for relaxations a reported optimum that is not the certified minimum "
+    "is discarded as a solver fault ONLY when CBC contradicts itself on the same model object (smaller optimum without "
+    "preprocessing, or after fixing x to the certified-optimal allocation, with the library's own optimize() arguments)",
     "completeness is checked on integer costs/budgets >= 1 and <= 4 voters (hypotheses of encoding_complete)",
+    "a returned price system must break no condition by more than 1e-6 (check_ps_eps_g); the library validator's verdict on "
+    "it is required to be True unless a compared pair lies within 1e-9 of each other across a rounding boundary "
+    "(boundary noise, computed by the harness from the returned floats; such verdicts are unspecified by the property)",
+    "relaxations are exercised with stable=True only (with stable=False the library adds beta and the objective but no "
+    "stability row); the float 0.025 * budget of MinAddOffset is modelled as 1/40 * budget",
 ]
-TRUSTED = ["Model/Priceability.v mirrors pabutools/analysis/priceability.py and utils.round_cmp (modelled, not verified)",
-           "the exact-rational simplex of the harness is NOT trusted: its witnesses / Farkas multipliers are checked "
-           "in Coq by check_witness / check_farkas (proved sound)"]
-EXPLANATION = ("Theorems (unbounded, 17, closed under the global context): banker's rounding is monotone and within "
-               "1/200; validator complete on exact price systems and sound up to 1/100; check_witness sound and complete, "
-               "Farkas checker sound for any linear system, every price system solves ps_rows; the MIP rows of priceable() "
-               "are sound for the definition and complete under the stated hypotheses (integral data, budget >= 1, <= 10 "
-               "voters; given and searched call); infeasible allocations are never priceable; integrality is necessary. "
-               "Tie: (1) validate_price_system vs verified checkers (oracle) and vs the model (correspondence) on exact "
-               "price systems and perturbations; (2) priceable's answer vs the exact decision certified by "
-               "check_witness / check_farkas; (3) returned witnesses re-checked by the library's validator, the model and "
-               "check_ps_eps; (4) the captured mip model's rows evaluated exactly vs Model.ps_constraints.")
+TRUSTED = ["Model/Priceability.v mirrors pabutools/analysis/priceability.py, priceability_relaxation.py and "
+           "utils.round_cmp (modelled, not verified)",
+           "the exact-rational simplex of the harness is NOT trusted: its witnesses / optima / Farkas multipliers are checked "
+           "in Coq by check_witness_g / ps_constraints_g / check_farkas (proved sound)",
+           "the boundary-noise flag of a returned price system is computed by the harness (not in Coq)"]
+EXPLANATION = ("Theorems (unbounded, 18 + 21, closed under the global context): banker's rounding is monotone and within "
+               "1/200; validator (with or without relaxation) complete on exact price systems and sound up to 1/100; "
+               "check_witness sound and complete, Farkas checker sound for any linear system, every (relaxed) price system "
+               "solves ps_rows_g; the MIP rows of priceable() incl. the rows of the five relaxation classes are sound for the "
+               "definition and complete under the stated hypotheses (integral data, budget >= 1, <= 10 voters resp. parameters "
+               "within relax_range); neutral beta = stable priceability; feasible betas are upward closed; certified lower "
+               "bound on the objective of the relaxed MIP; infeasible allocations are never priceable; integrality is "
+               "necessary. Tie: (1) validate_price_system vs verified checkers (oracle) and vs the model (correspondence) on "
+               "exact price systems and perturbations; (2) priceable's answer vs the exact decision certified by "
+               "check_witness / check_farkas; (3) returned witnesses re-checked (1e-6) and the library validator's verdict on "
+               "them; (4) the captured mip model's rows evaluated exactly vs Model.ps_constraints_g; (5) relaxations: reported "
+               "beta vs the certified minimum (within 1e-6).")
 
 try:  # exact rationals: gmpy2 when present (fast), Fraction otherwise
     from gmpy2 import mpq as _Q
@@ -377,8 +399,13 @@ def gen(rng, i, tier):
     elif akind == "mes":
         stable = rng.random() < 0.15
         exh = rng.random() < 0.25
-    return {"costs": costs, "budget": B, "ballots": ballots, "akind": akind, "alloc": alloc,
+    case = {"costs": costs, "budget": B, "ballots": ballots, "akind": akind, "alloc": alloc,
             "stable": stable, "exh": exh, "pseed": rng.randrange(1 << 30), "boundary": boundary, "solver": True}
+    if i % 3 == 1:
+        # a relaxed call: priceable(..., stable=True, relaxation=R(instance, profile))
+        case["relax"] = rng.choice(LP.KINDS)
+        case["stable"] = True
+    return case
 
 
 # ----------------------------------------------------------------------------------------------
@@ -397,6 +424,39 @@ def _validate(inst, prof, projs, W, b, P, stable, exh):
 
     pf = [{projs[c]: _num(P[i][c]) for c in range(len(projs))} for i in range(len(P))]
     return bool(validate_price_system(inst, prof, [projs[c] for c in W], _num(b), pf, stable=stable, exhaustive=exh))
+
+
+def _boundary_noise(inst, prof, Wp, b, pf, stable, relaxation=None):
+    """Is some pair (lhs, rhs) that validate_price_system compares within 1e-9 of each other while
+    round(lhs, 2) != round(rhs, 2)?  Then rounding each side separately turns float noise of the solver into a
+    difference of 0.01 and the validator's verdict on the returned system is unspecified (the property leaves
+    verdicts within the tolerance open).  Same sums, same iteration order as the library."""
+    C, N = inst, prof
+    NW = [c for c in C if c not in Wp]
+    spent = [sum(pf[idx][c] for c in C) for idx, _ in enumerate(N)]
+    leftover = [(b - spent[idx]) for idx, _ in enumerate(N)]
+    max_payment = [max((pf[idx][c] for c in C), default=0) for idx, _ in enumerate(N)]
+    pairs = []
+    for idx, _ in enumerate(N):
+        for c in C:
+            pairs.append((pf[idx][c], 0))
+        pairs.append((spent[idx], b))
+    for c in Wp:
+        pairs.append((sum(pf[idx][c] for idx, _ in enumerate(N)), c.cost))
+    for c in NW:
+        pairs.append((sum(pf[idx][c] for idx, _ in enumerate(N)), 0))
+        if not stable:
+            pairs.append((sum(leftover[idx] for idx, i in enumerate(N) if c in i), c.cost))
+        else:
+            s_ = sum(max(max_payment[idx], leftover[idx]) for idx, i in enumerate(N) if c in i)
+            pairs.append((s_, c.cost if relaxation is None else relaxation.get_relaxed_cost(c)))
+    noise = any(abs(l - r) <= 1e-9 and round(l, 2) != round(r, 2) for l, r in pairs)
+
+    def near_edge(x):       # within 1e-9 of a value k + 1/2 hundredths, where round(., 2) jumps
+        y = float(x) * 100.0 - 0.5
+        return abs(y - round(y)) <= 1e-7
+    edge = noise or any(abs(l - r) <= 1e-9 and (near_edge(l) or near_edge(r)) for l, r in pairs)
+    return noise, edge
 
 
 def _perturbations(rng, costs, B, ballots, W, b, P, stable, exh, k):
@@ -502,7 +562,12 @@ def _install_capture():
 
         def __init__(self, *a, **k):
             super().__init__(*a, **k)
+            self._verif_calls = []
             _CAPTURED.append(self)
+
+        def optimize(self, *a, **k):
+            self._verif_calls.append((a, dict(k)))
+            return super().optimize(*a, **k)
     PR.Model = Rec
 
 
@@ -544,7 +609,363 @@ def _rows_hold(model, projs, n, Wx, b, P, stable):
     return True
 
 
+
+# ----------------------------------------------------------------------------------------------
+# relaxations of stable priceability
+# ----------------------------------------------------------------------------------------------
+_RELAX_CONSTS = None
+OBJ_DELTA = Fraction(1, 10 ** 7)
+
+
+def relax_consts():
+    """the constants of priceability_relaxation.py, read from the source the same way Generated/Anchors.v is"""
+    global _RELAX_CONSTS
+    if _RELAX_CONSTS is None:
+        import os
+        from .. import anchors
+
+        f = anchors.extract(os.environ.get("VERIF_REPO", "/repo"))
+        num, den = f["RELAX_BUDGET_FRACTION"]
+        _RELAX_CONSTS = {"inf_factor": f["RELAX_INF_FACTOR"], "cap_factor": f["RELAX_VEC_CAP_FACTOR"],
+                         "fraction": Fraction(num, den)}
+    return _RELAX_CONSTS
+
+
+def _relax_class(kind):
+    import pabutools.analysis.priceability_relaxation as RX
+
+    return {"mul": RX.MinMul, "add": RX.MinAdd, "vec": RX.MinAddVector, "vecpos": RX.MinAddVectorPositive,
+            "off": RX.MinAddOffset}[kind]
+
+
+def _R_of_point(kind, m, point):
+    g = point.get(("g",), Fraction(0))
+    bc = [point.get(("bc", c), Fraction(0)) for c in range(m)]
+    return {"kind": kind, "g": g, "bc": bc}
+
+
+def _R_json(R):
+    return {"kind": R["kind"], "g": pb.qs(R["g"]), "bc": [pb.qs(x) for x in R["bc"]]}
+
+
+def _R_obj(R):
+    return R["g"] if R["kind"] in ("mul", "add", "off") else sum(R["bc"], Fraction(0))
+
+
+def _set_beta(rel, kind, projs, R):
+    """put exact parameter values into a relaxation object (what get_beta() would have saved)"""
+    import collections
+
+    if kind in ("mul", "add"):
+        rel._saved_beta = _num(R["g"])
+        return
+    d = collections.defaultdict(int)
+    for c, x in enumerate(R["bc"]):
+        if x != 0:
+            d[projs[c]] = _num(x)
+    sb = {"beta": d, "sum": sum(d.values())}
+    if kind == "off":
+        sb["beta_global"] = _num(R["g"])
+    rel._saved_beta = sb
+
+
+def _validate_relaxed(inst, prof, projs, kind, W, b, P, R, exh):
+    from pabutools.analysis.priceability import validate_price_system
+
+    rel = _relax_class(kind)(inst, prof)
+    _set_beta(rel, kind, projs, R)
+    pf = [{projs[c]: _num(P[i][c]) for c in range(len(projs))} for i in range(len(P))]
+    return bool(validate_price_system(inst, prof, [projs[c] for c in W], _num(b), pf, stable=True,
+                                      exhaustive=exh, relaxation=rel))
+
+
+def _claims(costs, ballots, b, P):
+    out = []
+    for i in range(len(ballots)):
+        sp = sum(P[i], Fraction(0))
+        out.append(max([max(P[i]) if P[i] else Fraction(0), b - sp]))
+    return out
+
+
+def _big_beta_witness(kind, costs, B, ballots, W, b, P, consts):
+    """parameters large enough for (b, P) to be a relaxed price system (existence only)"""
+    m, n = len(costs), len(ballots)
+    cl = _claims(costs, ballots, b, P)
+    need = {c: sum((cl[i] for i in range(n) if c in ballots[i]), Fraction(0)) for c in range(m) if c not in W}
+    if kind == "mul":
+        g = max([Fraction(0)] + [need[c] / costs[c] for c in need])
+        return {"kind": kind, "g": g, "bc": [Fraction(0)] * m}
+    if kind in ("add", "off"):
+        g = max([Fraction(0)] + [need[c] - costs[c] for c in need])
+        return {"kind": kind, "g": g, "bc": [Fraction(0)] * m}
+    return {"kind": kind, "g": Fraction(0),
+            "bc": [max(Fraction(0), need[c] - costs[c]) if c in need else Fraction(0) for c in range(m)]}
+
+
+def _point_bP(point, n, m):
+    b = point.get(("b",), Fraction(0))
+    P = [[point.get(("p", i, c), Fraction(0)) for c in range(m)] for i in range(n)]
+    return b, P
+
+
+def _rows_hold_relaxed(model, projs, n, Wx, b, P, R, tol=Fraction(1, 10 ** 9)):
+    """every bound and row of the captured relaxed model on the assignment induced by (Wx, b, P, R);
+    rows within 1e-9 (the library multiplies the float 0.025 by the budget)"""
+    import mip
+
+    m_ = len(projs)
+    val = {"voter_budget": b, "beta": R["g"]}
+    for i in range(n):
+        sp = sum(P[i], Fraction(0))
+        for c in range(m_):
+            val["p_%d_%s" % (i, projs[c].name)] = P[i][c]
+        val["m_%d" % i] = max([max(P[i]) if P[i] else Fraction(0), b - sp])
+    for c in range(m_):
+        val["x_%s" % projs[c].name] = Fraction(1 if c in Wx else 0)
+        val["beta_%s" % projs[c].name] = R["bc"][c]
+    for v in model.vars:
+        x = val[v.name]
+        if x < Fraction(v.lb) - tol or (v.ub < 1e300 and x > Fraction(v.ub) + tol):
+            return False
+    for con in model.constrs:
+        e = con.expr
+        sacc = Fraction(e.const)
+        for v, co in e.expr.items():
+            sacc += Fraction(co) * val[v.name]
+        if e.sense == "<":
+            ok = sacc <= tol
+        elif e.sense == ">":
+            ok = sacc >= -tol
+        else:
+            ok = abs(sacc) <= tol
+        if not ok:
+            return False
+    return True
+
+
+def impl_relaxed(case):
+    from pabutools.analysis.priceability import priceable, validate_price_system
+
+    _install_capture()
+    del _CAPTURED[:]
+    pb.install_solver_guard()
+    pb.solver_reset()
+    costs, B, ballots = case["costs"], case["budget"], case["ballots"]
+    m, n = len(costs), len(ballots)
+    kind, exh = case["relax"], case["exh"]
+    consts = relax_consts()
+    rng = random.Random(case["pseed"])
+    inst, projs = pb.make_instance(costs, B)
+    prof = pb.make_approval_profile(inst, projs, ballots)
+    out = {"relaxed": True}
+    alloc = case["alloc"]
+    if case["akind"] == "mes":
+        from pabutools.election import Cost_Sat
+        from pabutools.rules import method_of_equal_shares
+
+        alloc = sorted(pb.ranks(method_of_equal_shares(inst, prof, sat_class=Cost_Sat)))
+    out["alloc"] = alloc
+    lbflag = (alloc is None) and (not exh)
+    subs = [alloc] if alloc is not None else [list(s) for k in range(m + 1) for s in itertools.combinations(range(m), k)]
+
+    def admissible(W):
+        return tcost(costs, W) <= B and (not exh or is_exh(costs, B, W))
+
+    # ---- the optimum of the model's MIP: one exact LP per candidate allocation ----
+    obj = LP.objective_coefs(kind, m)
+    best = None
+    rows_of = {}
+    for W in subs:
+        if not admissible(W):
+            continue
+        rows = LP.rows_py(costs, B, ballots, W, True, lbflag, kind, True, consts)
+        rows_of[tuple(W)] = rows
+        res = LP.solve(rows, ballots, W, objective=obj)
+        if res[0] == "sat" and (best is None or res[2] < best[2]):
+            best = (W, res[1], res[2])
+    out["lp_needed"] = any(admissible(W) for W in subs)
+    if best is not None:
+        W, point, v = best
+        b, P = _point_bP(point, n, m)
+        R = _R_of_point(kind, m, point)
+        t = v - OBJ_DELTA
+        yss = []
+        for W1 in subs:
+            if not admissible(W1):
+                yss.append([])
+                continue
+            rows = rows_of[tuple(W1)] + [LP.objective_row(kind, m, t)]
+            r2 = LP.solve(rows, ballots, W1)
+            if r2[0] != "unsat":
+                raise RuntimeError("internal: objective below the LP minimum is feasible")
+            yss.append(r2[1])
+        out["opt"] = {"W": W, "b": pb.qs(b), "P": [[pb.qs(x) for x in row] for row in P], "R": _R_json(R),
+                      "t": pb.qs(t), "ys": yss, "v": pb.qs(v)}
+        out["exist"] = {"kind": "witness", "W": W, "b": pb.qs(b), "P": [[pb.qs(x) for x in row] for row in P],
+                        "R": _R_json(R)}
+        opt = (W, b, P, R)
+    else:
+        out["opt"] = None
+        opt = None
+        # is there a relaxed price system at all (any parameters)?  the stability rows are left out
+        found = None
+        yss = []
+        for W in subs:
+            if not admissible(W):
+                yss.append([])
+                continue
+            rows = LP.rows_py(costs, B, ballots, W, True, lbflag, kind, False, consts)
+            keep = [r for r in rows if r[2][0] != "s5"]
+            res = LP.solve(keep, ballots, W)
+            if res[0] == "sat":
+                b, P = _point_bP(res[1], n, m)
+                found = (W, b, P, _big_beta_witness(kind, costs, B, ballots, W, b, P, consts))
+                break
+            ys_full, it = [], iter(res[1])
+            for r in rows:
+                ys_full.append(0 if r[2][0] == "s5" else next(it))
+            yss.append(ys_full)
+        if found is not None:
+            W, b, P, R = found
+            out["exist"] = {"kind": "witness", "W": W, "b": pb.qs(b), "P": [[pb.qs(x) for x in row] for row in P],
+                            "R": _R_json(R)}
+        else:
+            out["exist"] = {"kind": "farkas", "ys": yss}
+
+    # ---- validator queries with exactly set parameters ----
+    out["rvals"] = []
+    if opt is not None:
+        W, b, P, R = opt
+        vq = [("opt_exact", W, b, P, R, exh)]
+        big = [Fraction(1, 10), Fraction(1, 8), Fraction(1, 4), Fraction(1), Fraction(101, 1000)]
+        small = [Fraction(1, 200), Fraction(3, 200), Fraction(1, 100), Fraction(1, 1000), Fraction(99, 10000)]
+
+        def shifted(R, d):
+            R2 = {"kind": R["kind"], "g": R["g"], "bc": list(R["bc"])}
+            if kind in ("mul", "add", "off"):
+                R2["g"] = R["g"] + d
+            else:
+                unsel = [c for c in range(m) if c not in W]
+                if unsel:
+                    c = rng.choice(unsel)
+                    R2["bc"][c] = R["bc"][c] + d
+            return R2
+        d = rng.choice(big if rng.random() < 0.7 else small)
+        vq.append(("beta-", W, b, P, shifted(R, -d), exh))
+        vq.append(("beta+", W, b, P, shifted(R, d), exh))
+        for tag, W2, b2, P2, st2, ex2 in _perturbations(rng, costs, B, ballots, W, b, P, True, exh, 2):
+            if st2:
+                vq.append((tag, W2, b2, P2, R, ex2))
+        for tag, W2, b2, P2, R2, ex2 in vq:
+            okv = _validate_relaxed(inst, prof, projs, kind, W2, b2, P2, R2, ex2)
+            out["rvals"].append({"tag": tag, "W": list(W2), "exh": ex2, "b": pb.qs(b2),
+                                 "P": [[pb.qs(x) for x in row] for row in P2], "R": _R_json(R2), "impl": okv})
+
+    # ---- the call ----
+    rel = _relax_class(kind)(inst, prof)
+    res = priceable(inst, prof, None if alloc is None else [projs[c] for c in alloc], stable=True,
+                    exhaustive=exh, relaxation=rel)
+    ok = res.validate()
+    out["status"] = str(res.status).split(".")[-1]
+    out["ok"] = bool(ok)
+    if ok is None:
+        out["solver_fault"] = "NO_SOLUTION_FOUND"
+    if ok:
+        Wr = sorted(pb.ranks(res.allocation))
+        pf = res.payment_functions
+        rb = res.relaxation_beta
+        if kind in ("mul", "add"):
+            Rr = {"kind": kind, "g": Fraction(rb), "bc": [Fraction(0)] * m}
+            robj = Fraction(rb)
+        else:
+            Rr = {"kind": kind, "g": Fraction(rb.get("beta_global", 0)),
+                  "bc": [Fraction(rb["beta"].get(projs[c], 0)) for c in range(m)]}
+            robj = Fraction(rb["beta_global"]) if kind == "off" else Fraction(rb["sum"])
+        valid = bool(validate_price_system(inst, prof, res.allocation, res.voter_budget, pf, stable=True,
+                                           exhaustive=exh, relaxation=rel))
+        out["wit"] = {"W": Wr, "b": _exact(res.voter_budget),
+                      "P": [[_exact(pf[i][projs[c]]) for c in range(m)] for i in range(n)],
+                      "R": _R_json(Rr), "obj": pb.qs(robj), "valid": valid,
+                      "noise": False, "edge": False}
+        out["wit"]["noise"], out["wit"]["edge"] = map(bool, _boundary_noise(
+            inst, prof, res.allocation, res.voter_budget, pf, True, rel))
+
+    # ---- CBC against itself: the same model object re-solved without preprocessing.  A smaller optimum (or
+    # a solution where INFEASIBLE was reported) means the first answer was invalid for the model it was given
+    # (observed: CBC's preprocessing loses the optimum of some big-M models) -> solver fault, discarded ----
+    if _CAPTURED and not out.get("solver_fault"):
+        import mip
+
+        model = _CAPTURED[-1]
+        suspicious = False
+        if ok and best is not None and out["status"] == "OPTIMAL":
+            suspicious = Fraction(out["wit"]["obj"].split("/")[0]) / Fraction(out["wit"]["obj"].split("/")[1]) \
+                > best[2] + Fraction(1, 10 ** 6)
+        elif not ok and out["exist"]["kind"] == "witness":
+            suspicious = True
+        if suspicious:
+            try:
+                obj1 = model.objective_value if ok else None
+                model.preprocess = 0
+                a0, k0 = model._verif_calls[-1] if model._verif_calls else ((), {"max_seconds": 600})
+                st2 = model.optimize(*a0, **k0)       # the library's own call, preprocessing off
+                if st2 == mip.OptimizationStatus.OPTIMAL:
+                    if not ok:
+                        out["solver_fault"] = "CBC: INFEASIBLE with preprocessing, solvable without (same model)"
+                    elif model.objective_value < obj1 - 1e-6:
+                        out["solver_fault"] = ("CBC: optimum %r with preprocessing, %r without (same model)"
+                                               % (obj1, model.objective_value))
+                if not out.get("solver_fault") and alloc is None:
+                    # a RESTRICTION of the model (x fixed to the allocation of the certified optimum / witness)
+                    # cannot have a smaller optimum, nor be solvable when the model is infeasible
+                    Wfix = best[0] if best is not None else out["exist"]["W"]
+                    for c in range(m):
+                        model += model.var_by_name("x_%s" % projs[c].name) == (1 if c in Wfix else 0)
+                    st3 = model.optimize(*a0, **k0)
+                    if st3 == mip.OptimizationStatus.OPTIMAL:
+                        if not ok:
+                            out["solver_fault"] = "CBC: INFEASIBLE, but solvable after fixing x (same model)"
+                        elif model.objective_value < obj1 - 1e-6:
+                            out["solver_fault"] = ("CBC: optimum %r reported, %r after fixing x to %r (same model)"
+                                                   % (obj1, model.objective_value, Wfix))
+            except Exception as e:  # pragma: no cover
+                out["resolve_error"] = repr(e)
+
+    # ---- the rows of the model that was built ----
+    out["rrows"] = []
+    if _CAPTURED and opt is not None:
+        model = _CAPTURED[-1]
+        W, b, P, R = opt
+        M = consts["inf_factor"] * B
+
+        def mod(R, **kw):
+            R2 = {"kind": R["kind"], "g": R["g"], "bc": list(R["bc"])}
+            R2.update(kw)
+            return R2
+        cands = [(W, b, P, R), (W, b, P, mod(R, g=R["g"] + 1)), (W, b, P, mod(R, g=R["g"] - Fraction(1, 2))),
+                 (W, b + rng.choice([1, M, Fraction(M, max(1, n))]), P, R)]
+        c = rng.randrange(m)
+        bc2 = list(R["bc"])
+        bc2[c] += rng.choice([Fraction(1, 2), -Fraction(1, 2), 1, M + 1, -(M + 1)])
+        cands.append((W, b, P, mod(R, bc=bc2)))
+        cands.append((sorted(set(W) ^ {rng.randrange(m)}), b, P, R))
+        for Wx, bx, Px, Rx in cands:
+            out["rrows"].append({"W": list(Wx), "b": pb.qs(bx), "P": [[pb.qs(x) for x in row] for row in Px],
+                                 "R": _R_json(Rx), "ok": _rows_hold_relaxed(model, projs, n, Wx, bx, Px, Rx)})
+    st = pb.solver_state()
+    out["solver_calls"] = st["calls"]
+    if st["faults"]:
+        out["solver_fault"] = st["last_fault"]
+    return out
+
+
 def impl(case):
+    if case.get("relax"):
+        return impl_relaxed(case)
+    return impl_plain(case)
+
+
+def impl_plain(case):
     from pabutools.analysis.priceability import priceable
 
     _install_capture()
@@ -641,7 +1062,10 @@ def impl(case):
         from pabutools.analysis.priceability import validate_price_system
         valid = bool(validate_price_system(inst, prof, res.allocation, res.voter_budget, pf, stable=stable, exhaustive=exh))
         out["wit"] = {"W": Wr, "b": _exact(res.voter_budget),
-                      "P": [[_exact(pf[i][projs[c]]) for c in range(m)] for i in range(n)], "valid": valid}
+                      "P": [[_exact(pf[i][projs[c]]) for c in range(m)] for i in range(n)], "valid": valid,
+                      "noise": False, "edge": False}
+        out["wit"]["noise"], out["wit"]["edge"] = map(bool, _boundary_noise(
+            inst, prof, res.allocation, res.voter_budget, pf, stable))
     # ---- the rows of the model that was built, on exact assignments ----
     out["rows"] = []
     if _CAPTURED:
@@ -675,7 +1099,48 @@ def _qtab(P):
     return lst([core.qlist(row) for row in P])
 
 
+_KIND_COQ = {"mul": "KMul", "add": "KAdd", "vec": "KVec", "vecpos": "KVecPos", "off": "KOff"}
+
+
+def _R_coq(R):
+    k = R["kind"]
+    if k == "mul":
+        return "(RMul %s)" % q(R["g"])
+    if k == "add":
+        return "(RAdd %s)" % q(R["g"])
+    if k == "vec":
+        return "(RVec %s)" % core.qlist(R["bc"])
+    if k == "vecpos":
+        return "(RVecPos %s)" % core.qlist(R["bc"])
+    return "(ROff %s %s)" % (q(R["g"]), core.qlist(R["bc"]))
+
+
+def coq_case_relaxed(case, o):
+    ex = o["exist"]
+    if ex["kind"] == "witness":
+        exist = "(RWitness %s %s %s %s)" % (natl(ex["W"]), q(ex["b"]), _qtab(ex["P"]), _R_coq(ex["R"]))
+    else:
+        exist = "(RFarkas %s)" % lst([core.qlist(ys) for ys in ex["ys"]])
+    op = o["opt"]
+    optc = "None" if not op else "(Some (%s, %s, %s, %s, %s, %s))" % (
+        natl(op["W"]), q(op["b"]), _qtab(op["P"]), _R_coq(op["R"]), q(op["t"]),
+        lst([core.qlist(ys) for ys in op["ys"]]))
+    w = o.get("wit")
+    wit = "None" if not w else "(Some (%s, %s, %s, %s, %s, %s, %s, %s))" % (
+        natl(w["W"]), q(w["b"]), _qtab(w["P"]), _R_coq(w["R"]), q(w["obj"]), boolc(w["valid"]), boolc(w["noise"]), boolc(w["edge"]))
+    rvals = lst([pair(natl(v["W"]), boolc(v["exh"]), q(v["b"]), _qtab(v["P"]), _R_coq(v["R"]), boolc(v["impl"]))
+                 for v in o["rvals"]])
+    rrows = lst([pair(natl(r["W"]), q(r["b"]), _qtab(r["P"]), _R_coq(r["R"]), boolc(r["ok"])) for r in o["rrows"]])
+    rq = "(Some (mkRQ %s %s %s %s %s %s %s %s %s))" % (
+        _KIND_COQ[case["relax"]], boolc(case["exh"]), opt(o["alloc"], natl), boolc(o["ok"]), exist, optc, wit,
+        rvals, rrows)
+    return "(mkCase %s %s %s [] None %s)" % (core.qlist(case["costs"]), q(case["budget"]),
+                                             lst([natl(b) for b in case["ballots"]]), rq)
+
+
 def coq_case(case, o):
+    if case.get("relax"):
+        return coq_case_relaxed(case, o)
     vals = lst(["(mkVQ %s %s %s %s %s %s)" % (natl(v["W"]), boolc(v["stable"]), boolc(v["exh"]), q(v["b"]),
                                                _qtab(v["P"]), boolc(v["impl"])) for v in o["vals"]])
     ce = o["cert"]
@@ -684,27 +1149,30 @@ def coq_case(case, o):
     else:
         cert = "(CFarkas %s)" % lst([core.qlist(ys) for ys in ce["ys"]])
     w = o.get("wit")
-    wit = "None" if not w else "(Some (%s, %s, %s, %s))" % (natl(w["W"]), q(w["b"]), _qtab(w["P"]), boolc(w["valid"]))
+    wit = "None" if not w else "(Some (%s, %s, %s, %s, %s, %s))" % (natl(w["W"]), q(w["b"]), _qtab(w["P"]),
+                                                                      boolc(w["valid"]), boolc(w["noise"]),
+                                                                      boolc(w["edge"]))
     alloc = o["alloc"]
     rows = lst([pair(natl(r["W"]), q(r["b"]), _qtab(r["P"]), boolc(r["ok"])) for r in o.get("rows", [])])
     qy = "(Some (mkPQ %s %s %s %s %s %s %s %s))" % (
         boolc(case["stable"]), boolc(case["exh"]), opt(alloc, natl), boolc(case["akind"] == "mes"),
         boolc(o["ok"]), cert, wit, rows)
-    return "(mkCase %s %s %s %s %s)" % (core.qlist(case["costs"]), q(case["budget"]),
-                                        lst([natl(b) for b in case["ballots"]]), vals, qy)
+    return "(mkCase %s %s %s %s %s None)" % (core.qlist(case["costs"]), q(case["budget"]),
+                                             lst([natl(b) for b in case["ballots"]]), vals, qy)
 
 
 # ----------------------------------------------------------------------------------------------
 # evidence
 # ----------------------------------------------------------------------------------------------
 def _usable(o):
-    return isinstance(o, dict) and "cert" in o and not o.get("discard")
+    return isinstance(o, dict) and ("cert" in o or "exist" in o) and not o.get("discard")
 
 
 def nontrivial(case, o):
     if not _usable(o) or not o.get("lp_needed"):
         return None
-    return [case["costs"], case["budget"], case["ballots"], o["alloc"], case["stable"], case["exh"]]
+    return [case["costs"], case["budget"], case["ballots"], o["alloc"], case["stable"], case["exh"],
+            case.get("relax")]
 
 
 def stats(cases, obs):
@@ -713,12 +1181,48 @@ def stats(cases, obs):
          "boundary_priceable_yes": 0, "validator_queries": 0, "validator_accepts": 0, "validator_tags": {},
          "voters_hist": {}, "projects_hist": {}, "with_empty_ballot": 0, "solver_calls": 0,
          "solver_fault_or_crash": 0, "impl_status": {},
-         "mip_row_evaluations": 0, "mip_row_evaluations_satisfied": 0}
+         "mip_row_evaluations": 0, "mip_row_evaluations_satisfied": 0,
+         "boundary_noise": 0, "boundary_noise_and_library_validator_rejects": 0,
+         "relaxed": {"calls": 0, "by_class": {}, "given": 0, "searched": 0, "exhaustive": 0, "success": 0,
+                     "no_relaxed_price_system": 0, "rejected_on_cost_or_exhaustiveness": 0,
+                     "objective_negative": 0, "objective_zero": 0, "objective_positive": 0,
+                     "objective_at_lower_bound": 0, "validator_queries": 0, "validator_accepts": 0,
+                     "validator_tags": {}, "mip_row_evaluations": 0, "mip_row_evaluations_satisfied": 0,
+                     "farkas_lower_bound_certificates": 0}}
     for c, o in zip(cases, obs):
         if o is None:
             continue
         if not _usable(o):
             d["solver_fault_or_crash"] += 1
+            continue
+        if (o.get("wit") or {}).get("noise"):
+            d["boundary_noise"] += 1
+            d["boundary_noise_and_library_validator_rejects"] += not o["wit"]["valid"]
+        if c.get("relax"):
+            r = d["relaxed"]
+            r["calls"] += 1
+            r["by_class"][c["relax"]] = r["by_class"].get(c["relax"], 0) + 1
+            r["given" if o["alloc"] is not None else "searched"] += 1
+            r["exhaustive"] += bool(c["exh"])
+            r["success"] += bool(o.get("ok"))
+            if o["exist"]["kind"] == "farkas":
+                r["no_relaxed_price_system" if o.get("lp_needed") else "rejected_on_cost_or_exhaustiveness"] += 1
+            if o.get("opt"):
+                v = pb.F(o["opt"]["v"])
+                neutral = 1 if c["relax"] == "mul" else 0
+                r["objective_negative" if v < neutral else ("objective_zero" if v == neutral else "objective_positive")] += 1
+                if c["relax"] in ("add", "off") and v == -relax_consts()["inf_factor"] * c["budget"]:
+                    r["objective_at_lower_bound"] += 1
+                r["farkas_lower_bound_certificates"] += sum(1 for ys in o["opt"]["ys"] if ys)
+            r["validator_queries"] += len(o["rvals"])
+            r["validator_accepts"] += sum(1 for v in o["rvals"] if v["impl"])
+            for v in o["rvals"]:
+                k = v["tag"] + ("+" if v["impl"] else "-")
+                r["validator_tags"][k] = r["validator_tags"].get(k, 0) + 1
+            r["mip_row_evaluations"] += len(o["rrows"])
+            r["mip_row_evaluations_satisfied"] += sum(1 for x in o["rrows"] if x["ok"])
+            d["solver_calls"] += o.get("solver_calls", 0)
+            d["impl_status"]["relaxed:" + o.get("status", "?")] = d["impl_status"].get("relaxed:" + o.get("status", "?"), 0) + 1
             continue
         d["akind"][c["akind"]] = d["akind"].get(c["akind"], 0) + 1
         d["stable"] += bool(c["stable"])
